@@ -129,7 +129,7 @@ theorem recreated_dir_is_empty (s : St) (hc : Consistent s) (pp : Path) (n : Nam
   have := doCreateLike_spec pp n true .mkdir (.dir mode 0 0)
     ⟨rfl, rfl, fun _ => ⟨mode, rfl⟩, fun h => (by cases h)⟩ s hc hpm hlo
   rw [h] at this
-  obtain ⟨hc', _, ⟨X', hX', hv⟩, hempty⟩ := this
+  obtain ⟨hc', _, ⟨X', hX', hv⟩, hempty, _⟩ := this
   refine ⟨?_, fun c q => Fbr.Thm.C10.merge_none_below s'.disk hc'.roots _ (hempty rfl c) q, hc'⟩
   rw [merge_eq_specStat s'.disk hc'.roots, hX']
   exact hv
